@@ -882,6 +882,14 @@ func (x *run) message(o op) {
 			if by == "circuit-id" {
 				st = cidState
 			}
+			if st == "at-expiry-instant" {
+				// documented exemption: in the second the lease runs out userspace already treats it as expired
+				// (Before(ExpiresAt) is false) while the program still honours it (now > lease_expiry is false);
+				// for that one second neither "stale" nor a different answer (userspace may already offer another
+				// address to a replacement CPE) is held against the fast path
+				stale = true
+				x.cls["exempt:at-expiry-instant"] = true
+			}
 			if st != "live" && st != "at-expiry-instant" {
 				stale = true
 				x.fail("C03/stale/"+st+"/by-"+by, "%s %s from c%d (%s): userspace has no unexpired lease for this client (found by %s: %s) but the fast path transmits a reply\nframe %x\nreply %x",
@@ -892,8 +900,11 @@ func (x *run) message(o op) {
 				x.fail("C03/wellformed/"+what+"/"+ihlShape, "%s: transmitted frame is not well formed: %s\nrequest %x\nreply   %x", desc, detail, fr, res.Out)
 				continue
 			}
-			want := byte(dhcpOffer)
-			if m.Type == dhcpRequest {
+			want := byte(0) // RELEASE, DECLINE: nothing may be transmitted
+			switch m.Type {
+			case dhcpDiscover:
+				want = dhcpOffer
+			case dhcpRequest:
 				want = dhcpAck
 			}
 			switch {
@@ -904,7 +915,14 @@ func (x *run) message(o op) {
 			case !bytes.Equal(p.chaddr[:], payload[28:44]):
 				x.fail("C03/wellformed/bootp/chaddr/"+ihlShape, "%s: chaddr %x, request had %x", desc, p.chaddr, payload[28:44])
 			case p.msgType != want:
-				x.fail("C03/wellformed/msg-type/"+kind, "%s: reply type %d to a %s (want %d)", desc, p.msgType, kind, want)
+				sig := "C03/wellformed/msg-type/" + kind
+				if at, in, t := phantom53(payload[240:]); at >= 0 {
+					// diagnosis only (the oracle is the line above): the reply type follows bytes that look like
+					// option 53 but lie inside the value of another option, at an offset the program reads
+					sig += fmt.Sprintf("/phantom-option-53-in-option-%d", in)
+					desc += fmt.Sprintf(" [bytes 35 01 %02x at options offset %d are inside option %d]", t, at, in)
+				}
+				x.fail(sig, "%s: reply type %d to a %s (want %d; 0 = no reply at all)", desc, p.msgType, kind, want)
 			default:
 				txs = append(txs, txReply{v: v, p: p, stale: stale})
 			}
@@ -940,7 +958,7 @@ func (x *run) message(o op) {
 			defer func() { panicked = recover() }()
 			x.srv.VerifHandle(x.conn, &net.UDPAddr{IP: net.IPv4bcast, Port: 68}, pkt)
 		}()
-		x.dirty = true
+		x.dirty, x.fresh = true, false
 		if panicked != nil {
 			x.fail("C03/userspace/panic/"+kind, "userspace handler panicked on %s: %v", kind, panicked)
 			return
@@ -960,7 +978,7 @@ func (x *run) message(o op) {
 
 	for _, t := range txs {
 		if t.stale {
-			continue // already reported under clause 3; userspace's answer to a client it no longer knows is another question
+			continue // already reported under clause 3 (or exempt: expiry instant); userspace's answer to a client it no longer knows is another question
 		}
 		desc := fmt.Sprintf("%s IHL=%d clock=%s", t.v.Enc.name(), t.v.Enc.IHL, t.v.Clock)
 		if reply == nil {
@@ -1080,6 +1098,39 @@ func (x *run) afterStep(before leaseTab, kind, mac, access string, acked bool) {
 	x.checkCache(after, ev)
 }
 
+// phantom53: does the options area hold the bytes [53][1][t] at one of the fixed offsets the program
+// reads (in the order it reads them) where a walk over the options says there is NO option boundary, i.e.
+// inside the value of another option?  Returns the offset, the code of the enclosing option and t; at = -1
+// if the first such match is the real option 53 (or there is none).
+func phantom53(opts []byte) (at int, in byte, t byte) {
+	starts := map[int]byte{} // offset -> code of the option starting there
+	owner := map[int]byte{}  // offset -> code of the option whose value covers it
+	for i := 0; i < len(opts); {
+		c := opts[i]
+		if c == 0 {
+			i++
+			continue
+		}
+		if c == 255 || i+1 >= len(opts) {
+			break
+		}
+		starts[i] = c
+		for j := i + 1; j < i+2+int(opts[i+1]) && j < len(opts); j++ {
+			owner[j] = c
+		}
+		i += 2 + int(opts[i+1])
+	}
+	for _, off := range []int{0, 1, 3, 4, 5, 6} {
+		if off+2 < len(opts) && opts[off] == 53 && opts[off+1] == 1 {
+			if _, real := starts[off]; real {
+				return -1, 0, 0
+			}
+			return off, owner[off], opts[off+2]
+		}
+	}
+	return -1, 0, 0
+}
+
 // cmp compares one field of the two replies; every field and every kind of disagreement has its own signature.
 func (x *run) cmp(name string, fast, user []byte, shape, desc string) {
 	if len(fast) == 0 && len(user) == 0 {
@@ -1190,6 +1241,16 @@ func execInBubble(rc *bpfnative.Client, tc *tcase) result {
 	}
 	if x.tx > 0 {
 		x.cls["case:some-TX"] = true
+	}
+	switch n := len(tc.Ops); {
+	case n <= 10:
+		x.cls["steps:<=10"] = true
+	case n <= 25:
+		x.cls["steps:11-25"] = true
+	case n <= 50:
+		x.cls["steps:26-50"] = true
+	default:
+		x.cls["steps:>50"] = true
 	}
 	return result{viol: x.viol, log: x.log, classes: sortedSet(x.cls), nt: x.nt, probes: x.probes, tx: x.tx, skipped: x.skipped, harness: x.harness}
 }
